@@ -1,5 +1,6 @@
 """helpers shared by the rule sets"""
 import ast
+from ..model import clone as _clone
 
 from ..model import walk_no_nested, AnchorMissing, CannotAnalyse, Func, Cls
 from ..poly import Rat, C, mk_atom
@@ -102,7 +103,7 @@ def holds_at(stmt):
     out = []
 
     def add(t, neg):
-        t = copy.deepcopy(t)
+        t = _clone(t)
         t = NNF().visit(_negate(t)) if neg else t
         for c in (t.values if isinstance(t, ast.BoolOp) and isinstance(t.op, ast.And) else [t]):
             out.append(ast.unparse(c))
@@ -171,11 +172,11 @@ def through_locals(node, defs, keep=()):
                              dv[0][1].func.id in ('list', 'dict', 'set', 'deepcopy', 'copy', 'zeros', 'ones', 'array')) and \
                         not any(isinstance(x, ast.Name) and x.id == n.id for x in ast.walk(dv[0][1])):
                     self.depth += 1
-                    r = self.visit(copy.deepcopy(dv[0][1]))
+                    r = self.visit(_clone(dv[0][1]))
                     self.depth -= 1
                     return r
             return n
-    return T().visit(copy.deepcopy(node))
+    return T().visit(_clone(node))
 
 
 def prop_atoms(e, out=None):
@@ -240,7 +241,7 @@ def rename_vars(e, mapping):
     class R(ast.NodeTransformer):
         def visit_Name(self, n):
             return ast.copy_location(ast.Name(id=mapping.get(n.id, n.id), ctx=n.ctx), n)
-    return R().visit(copy.deepcopy(e))
+    return R().visit(_clone(e))
 
 
 def is_none(e):
